@@ -3,7 +3,7 @@
    The scalar arithmetic of Python/NumPy (a o b on two numbers) and str(float)
    are parameters: the laws are stated for every such operation. *)
 From Coq Require Import ZArith List Bool String DecimalString.
-From DM Require Import Base.PyVal Spec.Nf.
+From DM Require Import Base.PyVal Base.CsvPy Spec.Nf.
 Import ListNotations.
 Open Scope Z_scope.
 
@@ -74,12 +74,14 @@ Section Arith.
   Variable num_op : binop -> num -> num -> num.     (* Python / NumPy scalar arithmetic: a o b *)
   Variable fstr : fl -> string.                     (* str(float) *)
 
-  (* the text of a cell (what `+` concatenates): numbers as Python prints them *)
+  (* the text of a cell (what `+` concatenates): Python's str() of the value -- an int with all its decimal digits
+     whatever its size, a float with an integral value as that integer, "nan" / "inf" / "-inf", any other float as
+     str(float) (fstr: the shortest round-trip notation, supplied from outside) *)
   Definition text_of (v : val) : string :=
     match v with
     | VStr s => s
     | VInt z => dec z
-    | VFlt f => if fl_is_finite f && fl_integral f then dec (fl_trunc f) else fstr f
+    | VFlt f => if fl_is_finite f && fl_integral f then dec (fl_trunc f) else show_flt fstr f
     | VNone => "None"
     end.
 
